@@ -497,4 +497,634 @@ theorem mu_quiet {s : State} {e : Ev} (hen : enabled s e = true) (hq : e.quiet s
     · right
       simp only [mu, hnc, heq, hnodes, hsl, hph]
 
+
+/-! ### roles: which sentinels can exist in which kind of object (every reachable state) -/
+
+/-- `_disabled` exists only in a fork's own metadata; an object that is not run as a job
+(fork metadata, split/join stubs of a non-splitting stage, everything of a pipeline)
+has no `_log`, `_jobinfo`, `_queued_locally` and is written by mrp only (directory ⊆ cache) -/
+structure RoleObj (k : Kind) (r : Role) (m : Meta) : Prop where
+  dis : r ≠ .fork → m.disk.has .disabled = false
+  nj : jobObj k r = false →
+    m.disk.has .log = false ∧ m.disk.has .jobinfo = false ∧ m.disk.has .queuedLocally = false ∧
+    ∀ y, m.disk.has y = true → m.seen.has y = true
+
+def RoleInv (s : State) : Prop := ∀ o : Obj, RoleObj (s.kind o.n) o.r (s.m o)
+
+theorem roleObj_empty (k r) : RoleObj k r {} := by constructor <;> simp
+
+theorem roleObj_see {k r m x} (h : RoleObj k r m) : RoleObj k r (see x m) := by
+  obtain ⟨h1, h2⟩ := h
+  constructor <;> simp only [see, has_add] <;> grind
+
+theorem roleObj_put_disk {k r m x} (h : RoleObj k r m) (hx : m.disk.has x = true) :
+    RoleObj k r (put x m) := by
+  obtain ⟨h1, h2⟩ := h
+  constructor <;> simp only [put, has_add] <;> grind
+
+theorem roleObj_put {k r m x} (h : RoleObj k r m) (hd : x = .disabled → r = .fork)
+    (h1 : x ≠ .log) (h2 : x ≠ .jobinfo) (h3 : x ≠ .queuedLocally) : RoleObj k r (put x m) := by
+  obtain ⟨a, b⟩ := h
+  constructor <;> simp only [put, has_add] <;> grind
+
+theorem roleObj_unq {k r m} (h : RoleObj k r m) : RoleObj k r (unq m) := by
+  obtain ⟨h1, h2⟩ := h
+  constructor <;> simp only [unq, has_del] <;> grind
+
+theorem roleObj_launch {k r m} (h : RoleObj k r m) (hj : jobObj k r = true) :
+    RoleObj k r (put .queuedLocally (put .jobinfo m)) := by
+  obtain ⟨h1, h2⟩ := h
+  constructor <;> simp only [put, has_add] <;> grind
+
+theorem roleObj_joblog {k r m} (h : RoleObj k r m) (hj : m.disk.has .jobinfo = true) :
+    RoleObj k r (toDisk .log (unq m)) := by
+  obtain ⟨h1, h2⟩ := h
+  constructor <;> simp only [toDisk, unq, has_add, has_del] <;> grind
+
+theorem roleObj_jobend {k r m x} (h : RoleObj k r m) (hj : m.disk.has .jobinfo = true)
+    (hx : x = .complete ∨ x = .errors ∨ x = .assert) : RoleObj k r (toDisk x m) := by
+  obtain ⟨h1, h2⟩ := h
+  constructor <;> simp only [toDisk, has_add] <;> grind
+
+theorem roleObj_reload {k r m} (h : RoleObj k r m) : RoleObj k r (reload m) := by
+  obtain ⟨h1, h2⟩ := h
+  constructor <;> simp only [reload] <;> grind
+
+theorem mrpWriteOk_cases {s : State} {o : Obj} {x : Sentinel} (h : mrpWriteOk s o x = true) :
+    x = .errors ∨ x = .complete ∨ (x = .disabled ∧ o.r = .fork) := by
+  unfold mrpWriteOk at h
+  cases x <;> cases hr : o.r <;> simp_all
+
+theorem roleInv_step {s : State} {e : Ev} (hen : enabled s e = true) (h : RoleInv s) :
+    RoleInv (apply s e) := by
+  intro o'
+  rw [apply_kind, apply_m]
+  cases e <;> simp only [] <;> try exact h o'
+  case W o x =>
+    split
+    · rename_i heq; subst heq
+      rcases (en_W hen).2.2 with hd | hw
+      · exact roleObj_put_disk (h o) hd
+      · rcases mrpWriteOk_cases hw with rfl | rfl | ⟨rfl, hr⟩
+        · exact roleObj_put (h o) (by simp) (by simp) (by simp) (by simp)
+        · exact roleObj_put (h o) (by simp) (by simp) (by simp) (by simp)
+        · exact roleObj_put (h o) (fun _ => hr) (by simp) (by simp) (by simp)
+    · exact h o'
+  case R o x => split; (rename_i heq; subst heq; exact roleObj_see (h o)); exact h o'
+  case D o x => split; (rename_i heq; subst heq; exact roleObj_see (h o)); exact h o'
+  case U o x => split; (rename_i heq; subst heq; exact roleObj_unq (h o)); exact h o'
+  case launch o =>
+    split
+    · rename_i heq; subst heq
+      exact roleObj_launch (h o) (launchOk_facts (en_launch hen)).2.1
+    · exact h o'
+  case joblog o =>
+    split
+    · rename_i heq; subst heq; exact roleObj_joblog (h o) (en_joblog hen).2
+    · exact h o'
+  case jobend o x =>
+    split
+    · rename_i heq; subst heq
+      obtain ⟨_, b, c, _⟩ := en_jobend hen
+      exact roleObj_jobend (h o) c b
+    · exact h o'
+  case silentfail o =>
+    split
+    · rename_i heq; subst heq
+      exact roleObj_put (h o) (by simp) (by simp) (by simp) (by simp)
+    · exact h o'
+  case reset o =>
+    split
+    · exact roleObj_empty _ _
+    · exact h o'
+  case restart => exact roleObj_reload (h o')
+
+theorem reach_roleInv {g : List NodeInfo} {s : State} (h : Reach g s) : RoleInv s := by
+  induction h with
+  | init => intro o; exact roleObj_empty _ _
+  | step _ hen ih => exact roleInv_step hen ih
+
+theorem reachFull_roleInv {g : List NodeInfo} {s : State} (h : ReachFull g s) : RoleInv s := by
+  induction h with
+  | init => intro o; exact roleObj_empty _ _
+  | step _ hen ih => exact roleInv_step hen ih
+
+/-- forks exist only for nodes of the graph -/
+def ForkRange (s : State) : Prop := ∀ n, s.nodes.length ≤ n → s.forksOf n = []
+
+theorem forkRange_step {s : State} {e : Ev} (hen : enabled s e = true) (h : ForkRange s) :
+    ForkRange (apply s e) := by
+  intro n hn
+  rw [apply_nodes] at hn
+  rw [apply_forksOf]
+  cases e <;> simp only [] <;> try exact h n hn
+  case fork n' f =>
+    split
+    · rename_i heq; subst heq
+      have := (en_fork hen).2.1; omega
+    · exact h n hn
+  case forkorder n' l =>
+    split
+    · rename_i heq; subst heq
+      have hsub := isSubNodup_mem (en_forkorder hen).2
+      rw [h n' hn] at hsub
+      cases l with
+      | nil => rfl
+      | cons a r => exact absurd (hsub a (List.mem_cons_self ..)) (by simp)
+    · exact h n hn
+
+theorem reach_forkRange {g : List NodeInfo} {s : State} (h : Reach g s) : ForkRange s := by
+  induction h with
+  | init => intro n _; rfl
+  | step _ hen ih => exact forkRange_step hen ih
+
+theorem reachFull_forkRange {g : List NodeInfo} {s : State} (h : ReachFull g s) : ForkRange s := by
+  induction h with
+  | init => intro n _; rfl
+  | step _ hen ih => exact forkRange_step hen ih
+
+
+/-! ### progress events -/
+
+/-- no failure marker in any object of node `n` -/
+def CleanNode (s : State) (n : Nat) : Prop :=
+  ∀ f r, (s.m ⟨n, f, r⟩).disk.has .errors = false ∧ (s.m ⟨n, f, r⟩).disk.has .assert = false
+
+theorem not_seen_of_not_disk {s : State} (hobj : ObjsInv s) {o : Obj} {y : Sentinel}
+    (h : (s.m o).disk.has y = false) : (s.m o).seen.has y = false := by
+  cases hs : (s.m o).seen.has y
+  · rfl
+  · have := (hobj o).sub y hs; rw [h] at this; cases this
+
+theorem st_not_failed {s : State} (hobj : ObjsInv s) {o : Obj}
+    (hc : (s.m o).disk.has .errors = false ∧ (s.m o).disk.has .assert = false) :
+    s.st o ≠ some .failed := by
+  intro h
+  rcases metaState_failed.mp h with h | h
+  · rw [not_seen_of_not_disk hobj hc.1] at h; cases h
+  · rw [not_seen_of_not_disk hobj hc.2] at h; cases h
+
+theorem st_complete_of {s : State} (hobj : ObjsInv s) {o : Obj}
+    (hc : (s.m o).disk.has .errors = false ∧ (s.m o).disk.has .assert = false)
+    (h : (s.m o).seen.has .complete = true) : s.st o = some .complete := by
+  unfold State.st
+  rw [metaState_eq, not_seen_of_not_disk hobj hc.1, not_seen_of_not_disk hobj hc.2, h]
+  simp
+
+/-- an object that is not the fork's own metadata, carries no failure, was not
+submitted and is not seen complete has no state at all -/
+theorem st_none_of {s : State} (hobj : ObjsInv s) (hrole : RoleInv s) {o : Obj}
+    (hr : o.r ≠ .fork)
+    (hc : (s.m o).disk.has .errors = false ∧ (s.m o).disk.has .assert = false)
+    (hj : (s.m o).disk.has .jobinfo = false) (hcomp : (s.m o).seen.has .complete = false) :
+    s.st o = none := by
+  have hlog : (s.m o).disk.has .log = false := by
+    cases hjo : jobObj (s.kind o.n) o.r
+    · exact ((hrole o).nj hjo).1
+    · cases hl : (s.m o).disk.has .log
+      · rfl
+      · have := (hobj o).kk hjo (Or.inl hl); rw [hj] at this; cases this
+  unfold State.st
+  rw [metaState_eq, not_seen_of_not_disk hobj hc.1, not_seen_of_not_disk hobj hc.2, hcomp,
+    not_seen_of_not_disk hobj ((hrole o).dis hr), not_seen_of_not_disk hobj hlog,
+    not_seen_of_not_disk hobj hj]
+  simp
+
+theorem potObj_frame {s : State} {e : Ev} (o : Obj) (hl : (apply s e).launches = s.launches)
+    (hi : (apply s e).inc = s.inc) :
+    potObj (apply s e) o =
+      potMeta ((apply s e).m o) + (if s.launches.contains (o, s.inc) then 0 else 3) := by
+  simp [potObj, hl, hi]
+
+theorem progress_of_obj {s : State} {e : Ev} {o : Obj} (hen : enabled s e = true)
+    (hq : e.quiet s = true) (hm : ∀ n f k, e ≠ .mkchunks n f k) (hr : e ≠ .refresh)
+    (hh : s.hasObj o = true) (hlt : potObj (apply s e) o < potObj s o) : Progress s e :=
+  ⟨hq, hen, mu_lt_of_obj hen hq hm hr ⟨o, hasObj_mem_objs hh, hlt⟩⟩
+
+theorem progress_W {s : State} {o : Obj} {x : Sentinel} (hen : enabled s (.W o x) = true)
+    (hx : x = .complete ∨ x = .disabled) (hs : (s.m o).seen.has x = false) :
+    Progress s (.W o x) := by
+  refine progress_of_obj hen ?_ (by simp) (by simp) (en_W hen).2.1 ?_
+  · rcases hx with rfl | rfl <;> simp [Ev.quiet, Ev.failing, Ev.structural]
+  · rw [potObj_frame o (by simp [apply_launches]) (by simp [apply_inc]), potObj, apply_m]
+    simp only [if_true]
+    exact Nat.add_lt_add_right
+      (potMeta_put_lt _ _ (by rcases hx with rfl | rfl <;> simp) hs) _
+
+theorem progress_R {s : State} {o : Obj} (hen : enabled s (.R o .complete) = true)
+    (hs : (s.m o).seen.has .complete = false) : Progress s (.R o .complete) := by
+  refine progress_of_obj hen (by simp [Ev.quiet, Ev.failing, Ev.structural]) (by simp) (by simp)
+    (en_R hen).2.1 ?_
+  rw [potObj_frame o (by simp [apply_launches]) (by simp [apply_inc]), potObj, apply_m]
+  simp only [if_true]
+  exact Nat.add_lt_add_right (potMeta_see_lt _ _ (by simp) hs) _
+
+theorem progress_launch {s : State} {o : Obj} (h : launchOk s o = true) :
+    Progress s (.launch o) := by
+  have hen : enabled s (.launch o) = true := by simp [enabled, guards, h]
+  have hq : (Ev.launch o).quiet s = true := by simp [Ev.quiet, Ev.failing, Ev.structural]
+  refine progress_of_obj hen hq (by simp) (by simp) (launchOk_phase h).2.2.2.2 ?_
+  rcases obj_step hen hq o with h' | h'
+  · exact h'.1
+  · -- the state of the object changes from none to queued
+    exfalso
+    have h0 := (launchOk_facts h).2.2
+    have h1 := h'.1
+    rw [h0] at h1
+    have : ((apply s (.launch o)).m o).seen.has .jobinfo = true := by
+      rw [apply_m]; simp [put, has_add]
+    exact st_ne_none_of_seen (Or.inl rfl) this h1
+
+/-- a submitted job that mrp has not yet seen complete can always move on: it starts
+(`_log`), ends (`_complete`), or its `_complete` is read from the journal -/
+theorem job_progress {s : State} {o : Obj} (hr : o.r ≠ .fork) (hh : s.hasObj o = true)
+    (hph : s.phase ≠ .crashed)
+    (hc : (s.m o).disk.has .errors = false ∧ (s.m o).disk.has .assert = false)
+    (hj : (s.m o).disk.has .jobinfo = true) (hcomp : (s.m o).seen.has .complete = false) :
+    ∃ e, Progress s e := by
+  have hjob : o.r.isJob = true := by cases h : o.r <;> simp_all [Role.isJob]
+  simp only [SSet.has] at hj hc
+  by_cases hlog : (s.m o).disk.has .log = true
+  · by_cases hco : (s.m o).disk.has .complete = true
+    · refine ⟨.R o .complete, progress_R ?_ hcomp⟩
+      simp [enabled, guards, hph, hh, hco]
+    · have hco' : (s.m o).disk.has .complete = false := by simpa using hco
+      have hen : enabled s (.jobend o .complete) = true := by
+        simp only [SSet.has] at hlog hco'
+        simp [enabled, guards, hjob, hj, hlog, hco', hc.2]
+      refine ⟨.jobend o .complete, progress_of_obj hen
+        (by simp [Ev.quiet, Ev.failing, Ev.structural]) (by simp) (by simp) hh ?_⟩
+      rw [potObj_frame o (by simp [apply_launches]) (by simp [apply_inc]), potObj, apply_m]
+      simp only [if_true]
+      exact Nat.add_lt_add_right (potMeta_toDisk_lt _ _ (by simp) hco') _
+  · have hlog' : (s.m o).disk.has .log = false := by simpa using hlog
+    have hen : enabled s (.joblog o) = true := by simp [enabled, guards, hjob, hj]
+    refine ⟨.joblog o, progress_of_obj hen
+      (by simp [Ev.quiet, Ev.failing, Ev.structural]) (by simp) (by simp) hh ?_⟩
+    rw [potObj_frame o (by simp [apply_launches]) (by simp [apply_inc]), potObj, apply_m]
+    simp only [if_true]
+    exact Nat.add_lt_add_right (potMeta_joblog_lt _ hlog') _
+
+
+theorem chunkSum_none_of {cs : List (Option MState)} (h1 : none ∈ cs)
+    (h2 : ∀ c ∈ cs, c ≠ some .failed) : chunkSum cs = .none := by
+  have he : cs.isEmpty = false := by cases cs <;> simp_all
+  have ha : cs.any (· == some .failed) = false := by
+    rw [List.any_eq_false]; intro c hc; simpa using h2 c hc
+  have hb : cs.all (· == some .complete) = false := by
+    rw [List.all_eq_false]; exact ⟨none, h1, by simp⟩
+  have hd : cs.all (fun c => c == some .complete || c == some .queued || c == some .running)
+      = false := by
+    rw [List.all_eq_false]; exact ⟨none, h1, by simp⟩
+  simp [chunkSum, he, ha, hb, hd]
+
+theorem forkState_ready_of {s : State} {n f : Nat} (hnd : fmDone s n f = false)
+    (hnf : s.st ⟨n, f, .fork⟩ ≠ some .failed) (hj : s.st ⟨n, f, .join⟩ = none)
+    (hcs : chunkSum (chunkStates s n f) = .none) (hs : s.st ⟨n, f, .split⟩ = none) :
+    forkState s n f = .ready := by
+  simp only [forkState, forkStateOf, hj, hcs, hs]
+  cases hfm : s.st ⟨n, f, .fork⟩ with
+  | none => rfl
+  | some m => cases m <;> simp_all [fmDone]
+
+theorem not_launched {s : State} (hl : LaunchInv s) {o : Obj}
+    (hj : (s.m o).disk.has .jobinfo = false) : (o, s.inc) ∉ s.launches := by
+  intro hm
+  rcases hl.alive o s.inc hm with a | ⟨k, a, b, _⟩
+  · rw [hj] at a; cases a
+  · omega
+
+theorem hasObj_of {s : State} {n f : Nat} (hn : n < s.nodes.length) (hf : f ∈ s.forksOf n)
+    (r : Role) (hr : ∀ i, r = .chunk i → i < s.nch n f) : s.hasObj ⟨n, f, r⟩ = true := by
+  cases r <;> simp_all [State.hasObj]
+
+/-- the split phase of an unfinished fork can move on -/
+theorem split_progress {s : State} (hobj : ObjsInv s) (hrole : RoleInv s) (hl : LaunchInv s)
+    {n f : Nat} (hn : n < s.nodes.length) (hf : f ∈ s.forksOf n) (hph : s.phase = .normal)
+    (hc : s.cachedOf n = .running) (hclean : CleanNode s n) (hnd : fmDone s n f = false)
+    (hkind : s.kind n ≠ .pipeline) (hj : s.st ⟨n, f, .join⟩ = none)
+    (hcs : chunkSum (chunkStates s n f) = .none)
+    (hsc : (s.m ⟨n, f, .split⟩).seen.has .complete = false) : ∃ e, Progress s e := by
+  have hhS := hasObj_of hn hf .split (by simp)
+  have hphc : s.phase ≠ .crashed := by rw [hph]; simp
+  by_cases hsj : (s.m ⟨n, f, .split⟩).disk.has .jobinfo = true
+  · exact job_progress (by simp) hhS hphc (hclean f .split) hsj hsc
+  have hsj' : (s.m ⟨n, f, .split⟩).disk.has .jobinfo = false := by simpa using hsj
+  have hsn := st_none_of hobj hrole (o := ⟨n, f, .split⟩) (by simp) (hclean f .split) hsj' hsc
+  have hready := forkState_ready_of hnd (st_not_failed hobj (hclean f .fork)) hj hcs hsn
+  cases hk : s.kind n
+  · -- non-splitting stage: mrp writes the stub
+    refine ⟨.W ⟨n, f, .split⟩ .complete, progress_W ?_ (Or.inl rfl) hsc⟩
+    simp [enabled, guards, hphc, hhS, mrpWriteOk, hph, hk, hc, hready]
+  · refine ⟨.launch ⟨n, f, .split⟩, progress_launch ?_⟩
+    simp [launchOk, hph, hhS, hc, not_launched hl hsj', hnd, hk, hready]
+  · exact absurd hk hkind
+
+
+/-- an unfinished fork of a node the scheduler steps (cached state Running, normal
+phase) whose objects carry no failure can always move on — whatever the rest of
+the pipestance looks like -/
+theorem fork_progress {s : State} (hobj : ObjsInv s) (hrole : RoleInv s) (hl : LaunchInv s)
+    {n f : Nat} (hn : n < s.nodes.length) (hf : f ∈ s.forksOf n) (hph : s.phase = .normal)
+    (hc : s.cachedOf n = .running) (hclean : CleanNode s n) (hnd : fmDone s n f = false) :
+    ∃ e, Progress s e := by
+  have hphc : s.phase ≠ .crashed := by rw [hph]; simp
+  have hhF := hasObj_of hn hf .fork (by simp)
+  have hhJ := hasObj_of hn hf .join (by simp)
+  -- the fork's own metadata is neither complete nor disabled
+  have hFc : (s.m ⟨n, f, .fork⟩).seen.has .complete = false := by
+    cases h : (s.m ⟨n, f, .fork⟩).seen.has .complete
+    · rfl
+    · have := fmDone_iff.mpr ⟨not_seen_of_not_disk hobj (hclean f .fork).1,
+        not_seen_of_not_disk hobj (hclean f .fork).2, Or.inl h⟩
+      rw [hnd] at this; cases this
+  by_cases hkp : s.kind n = .pipeline
+  · refine ⟨.W ⟨n, f, .fork⟩ .complete, progress_W ?_ (Or.inl rfl) hFc⟩
+    simp [enabled, guards, hphc, hhF, mrpWriteOk, hph, hc, hnd, hkp]
+  by_cases hjc : (s.m ⟨n, f, .join⟩).seen.has .complete = true
+  · have := st_complete_of hobj (hclean f .join) hjc
+    refine ⟨.W ⟨n, f, .fork⟩ .complete, progress_W ?_ (Or.inl rfl) hFc⟩
+    simp [enabled, guards, hphc, hhF, mrpWriteOk, hph, hc, hnd, this]
+  have hjc' : (s.m ⟨n, f, .join⟩).seen.has .complete = false := by simpa using hjc
+  by_cases hjj : (s.m ⟨n, f, .join⟩).disk.has .jobinfo = true
+  · exact job_progress (by simp) hhJ hphc (hclean f .join) hjj hjc'
+  have hjj' : (s.m ⟨n, f, .join⟩).disk.has .jobinfo = false := by simpa using hjj
+  have hjn := st_none_of hobj hrole (o := ⟨n, f, .join⟩) (by simp) (hclean f .join) hjj' hjc'
+  have hnf : ∀ c ∈ chunkStates s n f, c ≠ some .failed := by
+    intro c hc'
+    simp only [chunkStates, List.mem_map, List.mem_range] at hc'
+    obtain ⟨i, _, rfl⟩ := hc'
+    exact st_not_failed hobj (hclean f (.chunk i))
+  by_cases hall : ∀ i, i < s.nch n f → (s.m ⟨n, f, .chunk i⟩).seen.has .complete = true
+  · have hacc : allChunksComplete s n f = true :=
+      allChunksComplete_iff.mpr fun i hi => st_complete_of hobj (hclean f (.chunk i)) (hall i hi)
+    by_cases hz : s.nch n f = 0
+    · by_cases hsc : (s.m ⟨n, f, .split⟩).seen.has .complete = true
+      · have hss := st_complete_of hobj (hclean f .split) hsc
+        cases hk : s.kind n
+        · -- non-splitting stage: its chunk ("main") is defined now
+          have hen : enabled s (.mkchunks n f 1) = true := by
+            simp [enabled, guards, hphc, hhF, hk, hph, hz, hc, hnd, hss, hjn]
+          exact ⟨.mkchunks n f 1,
+            by simp [Ev.quiet, Ev.failing, Ev.structural, hph], hen,
+            mu_mkchunks hen (by simp [Ev.quiet, Ev.failing, Ev.structural, hph])⟩
+        · refine ⟨.launch ⟨n, f, .join⟩, progress_launch ?_⟩
+          simp [launchOk, hph, hhJ, hc, not_launched hl hjj', hnd, hk, hjn, hz, hss]
+        · exact absurd hk hkp
+      · have hcs : chunkSum (chunkStates s n f) = .none := by simp [chunkStates, hz, chunkSum]
+        exact split_progress hobj hrole hl hn hf hph hc hclean hnd hkp hjn hcs (by simpa using hsc)
+    · cases hk : s.kind n
+      · -- non-splitting stage: the join stub
+        refine ⟨.W ⟨n, f, .join⟩ .complete, progress_W ?_ (Or.inl rfl) hjc'⟩
+        simp [enabled, guards, hphc, hhJ, mrpWriteOk, hph, hk, hc, hnd, hjn, hacc]
+        omega
+      · refine ⟨.launch ⟨n, f, .join⟩, progress_launch ?_⟩
+        simp [launchOk, hph, hhJ, hc, not_launched hl hjj', hnd, hk, hjn, hz, hacc]
+      · exact absurd hk hkp
+  · -- some chunk is not yet seen complete
+    have : ∃ i, i < s.nch n f ∧ (s.m ⟨n, f, .chunk i⟩).seen.has .complete = false := by
+      apply Classical.byContradiction
+      intro hne
+      apply hall
+      intro i hi
+      cases h : (s.m ⟨n, f, .chunk i⟩).seen.has .complete
+      · exact absurd ⟨i, hi, h⟩ hne
+      · rfl
+    obtain ⟨i, hi, hic⟩ := this
+    have hhC := hasObj_of hn hf (.chunk i) (by intro j hj; cases hj; exact hi)
+    by_cases hcj : (s.m ⟨n, f, .chunk i⟩).disk.has .jobinfo = true
+    · exact job_progress (by simp) hhC hphc (hclean f (.chunk i)) hcj hic
+    have hcj' : (s.m ⟨n, f, .chunk i⟩).disk.has .jobinfo = false := by simpa using hcj
+    have hcn := st_none_of hobj hrole (o := ⟨n, f, .chunk i⟩) (by simp) (hclean f (.chunk i))
+      hcj' hic
+    by_cases hsc : (s.m ⟨n, f, .split⟩).seen.has .complete = true
+    · have hss := st_complete_of hobj (hclean f .split) hsc
+      refine ⟨.launch ⟨n, f, .chunk i⟩, progress_launch ?_⟩
+      simp [launchOk, hph, hhC, hc, not_launched hl hcj', hnd, hkp, hcn, hss, hjn]
+    · have hcs : chunkSum (chunkStates s n f) = .none := by
+        apply chunkSum_none_of _ hnf
+        simp only [chunkStates, List.mem_map, List.mem_range]
+        exact ⟨i, hi, by simp [chunkState, hcn]⟩
+      exact split_progress hobj hrole hl hn hf hph hc hclean hnd hkp hjn hcs (by simpa using hsc)
+
+
+/-! ### nodes -/
+
+theorem chunkSum_failed {cs : List (Option MState)} (h : chunkSum cs = .failed) :
+    some .failed ∈ cs := by
+  unfold chunkSum at h
+  split at h; · cases h
+  split at h
+  · rename_i ha
+    simp only [List.any_eq_true, beq_iff_eq] at ha
+    obtain ⟨c, hc, rfl⟩ := ha; exact hc
+  · split at h; · cases h
+    split at h <;> cases h
+
+theorem forkStateOf_failed {fm jm sm : Option MState} {cs : List (Option MState)}
+    (h : forkStateOf fm jm cs sm = .failed) :
+    fm = some .failed ∨ jm = some .failed ∨ some .failed ∈ cs ∨ sm = some .failed := by
+  unfold forkStateOf at h
+  split at h
+  · exact Or.inl rfl
+  · cases h
+  · cases h
+  · split at h
+    · exact Or.inr (Or.inl rfl)
+    · cases h
+    · split at h
+      · rename_i hcs; exact Or.inr (Or.inr (Or.inl (chunkSum_failed hcs)))
+      · cases h
+      · cases h
+      · split at h
+        · exact Or.inr (Or.inr (Or.inr rfl))
+        · cases h
+        · cases h
+
+theorem forkState_not_failed {s : State} (hobj : ObjsInv s) {n : Nat} (hclean : CleanNode s n)
+    (f : Nat) : forkState s n f ≠ .failed := by
+  intro h
+  rcases forkStateOf_failed h with h | h | h | h
+  · exact st_not_failed hobj (hclean f .fork) h
+  · exact st_not_failed hobj (hclean f .join) h
+  · simp only [chunkStates, List.mem_map, List.mem_range] at h
+    obtain ⟨i, _, hi⟩ := h
+    exact st_not_failed hobj (hclean f (.chunk i)) hi
+  · exact st_not_failed hobj (hclean f .split) h
+
+theorem scanForks_failed {l : List FState} {d : Bool} (h : scanForks l d = .failed) :
+    .failed ∈ l := by
+  induction l generalizing d with
+  | nil => simp [scanForks] at h
+  | cons a r ih =>
+    cases a <;> simp only [scanForks] at h <;>
+      first
+      | exact List.mem_cons_self ..
+      | exact List.mem_cons_of_mem _ (ih h)
+      | cases h
+
+/-- a node whose own objects carry no failure, whose prenodes are finished and which is not
+finished itself is Running -/
+theorem nodeState_running_of {s : State} (hobj : ObjsInv s) {n : Nat} (hclean : CleanNode s n)
+    (hpre : ∀ p ∈ s.pre n, nodeDone s p = true) (hnd : nodeDone s n = false) :
+    nodeState s n = .running := by
+  unfold nodeDone at hnd
+  unfold nodeState nodeStateOf
+  cases hs : scanForks (forkStates s n) true
+  · have := scanForks_failed hs
+    simp only [forkStates, List.mem_map] at this
+    obtain ⟨f, _, hf⟩ := this
+    exact absurd hf (forkState_not_failed hobj hclean f)
+  · rw [hs] at hnd; cases hnd
+  · have : (s.pre n).all (nodeDone s) = true := by simpa [List.all_eq_true] using hpre
+    simp [this]
+
+/-- C06 `independent` / the node-local half of deadlock freedom: a node whose own
+objects carry no failure, whose prenodes are finished and whose cached state is
+current can take a step — whatever has failed elsewhere -/
+theorem node_progress {s : State} (hobj : ObjsInv s) (hrole : RoleInv s) (hl : LaunchInv s)
+    {n : Nat} (hn : n < s.nodes.length) (hph : s.phase = .normal)
+    (hfresh : s.cachedOf n = nodeState s n) (hpre : ∀ p ∈ s.pre n, nodeDone s p = true)
+    (hclean : CleanNode s n) (hnd : nodeDone s n = false) : ∃ e, Progress s e := by
+  have hc : s.cachedOf n = .running := by rw [hfresh]; exact nodeState_running_of hobj hclean hpre hnd
+  have : ∃ f, f ∈ s.forksOf n ∧ fmDone s n f = false := by
+    apply Classical.byContradiction
+    intro hne
+    have : nodeDone s n = true := by
+      rw [nodeDone_iff]
+      intro f hf
+      cases h : fmDone s n f
+      · exact absurd ⟨f, hf, h⟩ hne
+      · rfl
+    rw [hnd] at this; cases this
+  obtain ⟨f, hf, hfd⟩ := this
+  exact fork_progress hobj hrole hl hn hf hph hc hclean hfd
+
+theorem mu_nodestate_lt {s : State} {n : Nat} (hen : enabled s (.nodestate n (nodeState s n)) = true)
+    (hne : s.cachedOf n ≠ nodeState s n) :
+    LexLt (mu (apply s (.nodestate n (nodeState s n)))) (mu s) := by
+  have hq : (Ev.nodestate n (nodeState s n)).quiet s = true := by
+    simp [Ev.quiet, Ev.failing, Ev.structural]
+  have hnodes := apply_nodes s (.nodestate n (nodeState s n))
+  have hf := quiet_forksOf hq
+  have hc := quiet_nch (s := s) (e := .nodestate n (nodeState s n)) (by simp)
+  have hnc := noChunks_congr hnodes hf hc
+  have hst : ∀ o, (apply s (.nodestate n (nodeState s n))).st o = s.st o := fun o => by
+    simp [State.st, apply_m]
+  have hnst := nodeState_congr hnodes hf hc hst
+  have hpb : potB (apply s (.nodestate n (nodeState s n))) = potB s := by
+    unfold potB potObj
+    rw [objs_congr hnodes hf hc]
+    simp [apply_m, apply_launches, apply_inc]
+  have hph : (apply s (.nodestate n (nodeState s n))).phase = s.phase := by simp [apply_phase]
+  obtain ⟨_, hn, _⟩ := en_nodestate hen
+  right
+  refine ⟨hnc, ?_⟩
+  have hlt : stale (apply s (.nodestate n (nodeState s n))) < stale s := by
+    unfold stale
+    rw [hnodes]
+    apply filter_length_lt_of_imp
+    · intro n' _ hp
+      rw [hnst, apply_cachedOf] at hp
+      simp only [] at hp
+      split at hp
+      · rename_i h; subst h; simp at hp
+      · exact hp
+    · refine ⟨n, by simpa using hn, ?_, ?_⟩
+      · rw [hnst, apply_cachedOf]; simp
+      · simpa using hne
+  simp only [mu, hpb, hnodes, hph]
+  omega
+
+theorem mu_refresh_lt {s : State} (hl : s.phase = .loading) :
+    LexLt (mu (apply s .refresh)) (mu s) := by
+  have hq : Ev.refresh.quiet s = true := by simp [Ev.quiet, Ev.failing, Ev.structural]
+  have hnodes := apply_nodes s .refresh
+  have hf := quiet_forksOf hq
+  have hc := quiet_nch (s := s) (e := .refresh) (by simp)
+  have hnc := noChunks_congr hnodes hf hc
+  have hst : ∀ o, (apply s .refresh).st o = s.st o := fun o => by simp [State.st, apply_m]
+  have hnst := nodeState_congr hnodes hf hc hst
+  have hpb : potB (apply s .refresh) = potB s := by
+    unfold potB potObj
+    rw [objs_congr hnodes hf hc]
+    simp [apply_m, apply_launches, apply_inc]
+  have hsl := stale_congr hnodes (not_mk_cached (s := s) (e := .refresh) (by simp)) hnst
+  have hph : (apply s .refresh).phase = .normal := by simp [apply_phase]
+  right
+  refine ⟨hnc, ?_⟩
+  simp [mu, hpb, hnodes, hsl, hph, hl]
+
+theorem not_done_lt {s : State} (hfr : ForkRange s) {n : Nat} (h : nodeDone s n = false) :
+    n < s.nodes.length := by
+  apply Classical.byContradiction
+  intro hn
+  have : nodeDone s n = true := by
+    rw [nodeDone_iff, hfr n (Nat.le_of_not_lt hn)]; simp
+  rw [h] at this; cases this
+
+/-- in an acyclic graph an unfinished node has an unfinished node upstream of it (or is
+itself one) all of whose prenodes are finished -/
+theorem exists_ready {s : State} (hac : Acyclic s.nodes) :
+    ∀ n, nodeDone s n = false →
+      ∃ m, nodeDone s m = false ∧ ∀ p ∈ s.pre m, nodeDone s p = true := by
+  obtain ⟨rank, hrank⟩ := hac
+  intro n
+  induction hr : rank n using Nat.strongRecOn generalizing n with
+  | _ r ih =>
+    intro hnd
+    by_cases hall : ∀ p ∈ s.pre n, nodeDone s p = true
+    · exact ⟨n, hnd, hall⟩
+    · have : ∃ p, p ∈ s.pre n ∧ nodeDone s p = false := by
+        apply Classical.byContradiction
+        intro hne
+        apply hall
+        intro p hp
+        cases h : nodeDone s p
+        · exact absurd ⟨p, hp, h⟩ hne
+        · rfl
+      obtain ⟨p, hp, hpd⟩ := this
+      have hlt : rank p < r := by rw [← hr]; exact hrank n p hp
+      exact ih (rank p) hlt p rfl hpd
+
+/-- DEADLOCK FREEDOM: a live state without failure markers is finished, or some
+progress event (quiet, enabled, lowering the measure) exists -/
+theorem finished_or_progress {s : State} (hobj : ObjsInv s) (hrole : RoleInv s)
+    (hl : LaunchInv s) (hfr : ForkRange s) (hac : Acyclic s.nodes) (hph : s.phase ≠ .crashed)
+    (hclean : ∀ n, CleanNode s n) : Finished s ∨ ∃ e, Progress s e := by
+  by_cases hst : ∃ n, n < s.nodes.length ∧ s.cachedOf n ≠ nodeState s n
+  · obtain ⟨n, hn, hne⟩ := hst
+    have hen : enabled s (.nodestate n (nodeState s n)) = true := by
+      simp [enabled, guards, hph, hn]
+    exact Or.inr ⟨_, by simp [Ev.quiet, Ev.failing, Ev.structural], hen, mu_nodestate_lt hen hne⟩
+  have hfresh : ∀ n, n < s.nodes.length → s.cachedOf n = nodeState s n := by
+    intro n hn
+    apply Classical.byContradiction
+    intro hne
+    exact hst ⟨n, hn, hne⟩
+  cases hp : s.phase
+  · -- loading: the first refresh
+    right
+    have hall : allFresh s = true := by
+      simp only [allFresh, List.all_eq_true, List.mem_range, beq_iff_eq]
+      exact hfresh
+    exact ⟨.refresh, by simp [Ev.quiet, Ev.failing, Ev.structural],
+      by simp [enabled, guards, hp, hall], mu_refresh_lt hp⟩
+  · by_cases hdone : ∀ n, n < s.nodes.length → nodeDone s n = true
+    · exact Or.inl ⟨hp, fun n hn => ⟨hdone n hn, hfresh n hn⟩⟩
+    · right
+      have : ∃ n, nodeDone s n = false := by
+        apply Classical.byContradiction
+        intro hne
+        apply hdone
+        intro n _
+        cases h : nodeDone s n
+        · exact absurd ⟨n, h⟩ hne
+        · rfl
+      obtain ⟨n, hnd⟩ := this
+      obtain ⟨m, hmd, hmp⟩ := exists_ready hac n hnd
+      have hm := not_done_lt hfr hmd
+      exact node_progress hobj hrole hl hm hp (hfresh m hm) hmp (hclean m) hmd
+  · exact absurd hp hph
+
 end Martian.Sched
